@@ -214,6 +214,32 @@ def main():
             cfg = TrainingJobConfig(data_config=dc, model_config=mc, trainer_config=tc).to_sleap_nn_cfg()
         else:
             cfg = OmegaConf.create(plain)
+        if job.get("reuse") and not job.get("bare"):
+            # a configuration that has been USED before: the final training_config.yaml of an earlier run (it carries a
+            # data_config.skeletons section, filled-in part names, the run's derived sizes) is given to a new run on labels
+            # whose skeleton has another name - what the new run records must be what the new run used (seed C19_r13)
+            import sleap_io as sio
+            from sleap_nn.training.model_trainer import ModelTrainer as _MT
+            out0 = os.path.join(work, "earlier_run")
+            c0 = OmegaConf.create(OmegaConf.to_container(cfg, resolve=True))
+            c0.trainer_config.save_ckpt_path = out0
+            c0.trainer_config.use_wandb = False
+            if c0.data_config.get("np_chunks_path"):
+                c0.data_config.np_chunks_path = os.path.join(work, "earlier_chunks")
+            t0 = _MT(c0)
+            t0.train()
+            prev = OmegaConf.load(os.path.join(out0, "training_config.yaml"))
+            lab = sio.load_slp(str(prev.data_config.train_labels_path))
+            lab.skeletons[0].name = "mouse"
+            ren = os.path.join(work, "renamed_skeleton.pkg.slp")
+            sio.save_slp(lab, ren, embed="user")
+            prev.data_config.train_labels_path = ren
+            prev.data_config.val_labels_path = ren
+            prev.trainer_config.save_ckpt_path = cfg.trainer_config.save_ckpt_path
+            prev.trainer_config.use_wandb = cfg.trainer_config.use_wandb
+            prev.trainer_config.wandb = cfg.trainer_config.wandb
+            prev.data_config.np_chunks_path = cfg.data_config.get("np_chunks_path")
+            cfg = prev
         from sleap_nn.config.training_job_config import verify_training_cfg
         supplied = OmegaConf.to_container(verify_training_cfg(OmegaConf.create(OmegaConf.to_container(cfg, resolve=True))), resolve=True)
         from sleap_nn.training.model_trainer import ModelTrainer
@@ -253,6 +279,7 @@ def main():
             ds = getattr(trainer, "train_dataset", None)
             mh, mw = (getattr(ds, "max_hw", None) or (trainer.max_height, trainer.max_width))
             obs["used_sizes"] = dict(max_height=mh, max_width=mw)
+            obs["used_skeletons"] = [(sk.name if sk.name is not None else "skeleton-0") for sk in trainer.skeletons]
             if job["model"] == "centered_instance":
                 ch = getattr(ds, "crop_hw", None) or (trainer.crop_hw, trainer.crop_hw)
                 obs["used_sizes"]["crop_hw"] = [int(ch[0]), int(ch[1])]
@@ -329,6 +356,10 @@ def main():
     ini, fin = load("initial_config.yaml"), load("training_config.yaml")
     obs["initial_diff"] = (["<missing>"] if ini is None else diff_paths(blank(ini), blank(supplied)))[:12]
     obs["final_diff"] = (["<missing>"] if fin is None else (["<no live config>"] if used is None else diff_paths(blank(fin), blank(used))))[:12]
+    if fin is not None and obs.get("used_skeletons") is not None:
+        rec_sk = list((fin["data_config"].get("skeletons") or {}).keys())
+        if rec_sk != obs["used_skeletons"]:
+            obs["final_diff"].append("data_config.skeletons(recorded %s, run used %s)" % (rec_sk, obs["used_skeletons"]))
     if fin is not None and obs.get("used_sizes"):
         pre = fin["data_config"]["preprocessing"]
         for k, v in obs["used_sizes"].items():
